@@ -125,6 +125,18 @@ def check(ctx):
                 continue
             a = ctx.analysis(cfg, key)
             st, det = ref_form(a, b, mode)
+            if st != PROVED:
+                # the same view built through the crate's own view functions (as_slice / slice_from_chunks / from_slice ..): judged with every
+                # crate-local call expanded; a length check that comes along must be unreachable (a panic would be a behaviour change)
+                a2 = ctx.analysis_inl(cfg, key, split=True, force="*", tag="c11")
+                st2, det2 = ref_form(a2, b, mode)
+                if st2 == PROVED:
+                    from ..poly import prove as _prove
+                    live = [c.fn for c in a2.calls if c.fn.startswith("core::panicking::") and not _prove((">=", _P.const(-1)), a2.poly_facts(c.facts))]
+                    if not live:
+                        st, det = PROVED, det2 + " (crate-local view functions expanded; their length checks are unreachable here)"
+                    else:
+                        det = det + " | expanded: a panic of an inner length check is reachable: %s" % sorted(set(live))
             ctx.ob("C11.E", key, st, det, at=b["at"], cfg=cfg)
             st, ldet = lifetime_linkage(ctx.db(cfg), b)
             ctx.ob("C11.L", key, st if st is not None else UNKNOWN, ldet, at=b["at"], cfg=cfg)
